@@ -1067,11 +1067,21 @@ Fixpoint scoped (e : env) (s : schema) : bool :=
   end.
 Definition env_scoped (e : env) : bool := forallb (fun nd => named_core (snd nd) && scoped e (snd nd)) e.
 
+(* which reader schema the writer schema [w] meets: the branch of a reader union the rules pick ([on_branch]), or the
+   reader schema itself, dereferenced, when the two match ([on_plain]) *)
+Definition on_reader (we re : env) (w r : schema) (on_branch on_plain : schema -> bool) : bool :=
+  match deref1 re r with
+  | SUnion rbs => match spec_idx we re w rbs with
+                  | Some j => match nth_error rbs j with Some b => on_branch b | None => true end
+                  | None => true
+                  end
+  | _ => if smatch we re true w r then on_plain (deref1 re r) else true
+  end.
+
 Fixpoint agreen (k : nat) (we re : env) (w r : schema) {struct k} : bool :=
   match k with
   | O => true          (* nothing is visited beyond the depth of the value *)
   | S k =>
-    let rd := deref1 re r in                     (* the reader schema, dereferenced *)
     let node (w' b : schema) : bool :=          (* a writer schema that is no union / reference meets the reader schema b *)
       match w', b with
       | SEnum _ _ _ _, SEnum _ _ _ (Some []) => false
@@ -1090,33 +1100,129 @@ Fixpoint agreen (k : nat) (we re : env) (w r : schema) {struct k} : bool :=
         match lookup we nm with
         | None => false
         | Some wd =>      (* the definition meets the reader schema one level down *)
-            match rd with
-            | SUnion rbs => match spec_idx we re w rbs with
-                            | Some j => match nth_error rbs j with Some b => agreen k we re wd (deref1 re b) | None => true end
-                            | None => true
-                            end
-            | _ => if smatch we re true w r then agreen k we re wd rd else true
-            end
+            on_reader we re w r (fun b => agreen k we re wd (deref1 re b)) (fun rd => agreen k we re wd rd)
         end
     | SUnion wbs =>
-        forallb (fun wb =>
-          match rd with
-          | SUnion rbs => match spec_idx we re wb rbs with
-                          | Some j => match nth_error rbs j with Some b => agreen k we re wb b | None => true end
-                          | None => true
-                          end
-          | _ => if smatch we re true wb r then agreen k we re wb rd else true
-          end) wbs
-    | _ =>
-        match rd with
-        | SUnion rbs => match spec_idx we re w rbs with
-                        | Some j => match nth_error rbs j with Some b => node w (deref1 re b) | None => true end
-                        | None => true
-                        end
-        | _ => if smatch we re true w r then node w rd else true
-        end
+        forallb (fun wb => on_reader we re wb r (fun b => agreen k we re wb b) (fun rd => agreen k we re wb rd)) wbs
+    | _ => on_reader we re w r (fun b => node w (deref1 re b)) (fun rd => node w rd)
     end
   end.
+
+(** *** the zone with references, without a depth: a finite set of pairs (writer schema, reader schema) that
+    contains the pair in question, in which every pair satisfies the conditions of [agreen] locally, and which is closed
+    under "the pairs visited next".  [agree_step rec] is one level of [agreen] with [rec] for the deeper levels. *)
+Definition agree_step (rec : schema -> schema -> bool) (we re : env) (w r : schema) : bool :=
+  let node (w' b : schema) : bool :=
+    match w', b with
+    | SEnum _ _ _ _, SEnum _ _ _ (Some []) => false
+    | SArray wi, SArray ri => rec wi ri
+    | SMap wv, SMap rv => rec wv rv
+    | SRecord _ _ wfs, SRecord _ _ rfs =>
+        forallb (fun wf => match reader_field rfs (fname wf) with
+                           | Some rf => rec (ftype wf) (ftype rf)
+                           | None => true end) wfs
+        && defaults_ok re rfs
+    | _, _ => true
+    end in
+  truthy_ok r &&
+  match w with
+  | SRef nm =>
+      match lookup we nm with
+      | None => false
+      | Some wd => on_reader we re w r (fun b => rec wd (deref1 re b)) (fun rd => rec wd rd)
+      end
+  | SUnion wbs => forallb (fun wb => on_reader we re wb r (fun b => rec wb b) (fun rd => rec wb rd)) wbs
+  | _ => on_reader we re w r (fun b => node w (deref1 re b)) (fun rd => node w rd)
+  end.
+
+(* structural equality of schemas *)
+Fixpoint sl_eqb (a b : list str) : bool :=
+  match a, b with
+  | [], [] => true
+  | x :: a, y :: b => bytes_eqb x y && sl_eqb a b
+  | _, _ => false
+  end.
+Definition o_eqb {A} (eq : A -> A -> bool) (a b : option A) : bool :=
+  match a, b with None, None => true | Some x, Some y => eq x y | _, _ => false end.
+Fixpoint sch_eqb (a b : schema) {struct a} : bool :=
+  match a, b with
+  | SNull, SNull | SBool, SBool | SInt, SInt | SLong, SLong | SFloat, SFloat | SDouble, SDouble
+  | SBytes, SBytes | SString, SString => true
+  | SFixed n al z, SFixed n' al' z' => bytes_eqb n n' && sl_eqb al al' && Z.eqb z z'
+  | SEnum n al ss d, SEnum n' al' ss' d' => bytes_eqb n n' && sl_eqb al al' && sl_eqb ss ss' && o_eqb bytes_eqb d d'
+  | SArray x, SArray y => sch_eqb x y
+  | SMap x, SMap y => sch_eqb x y
+  | SUnion l, SUnion l' =>
+      (fix go (l l' : list schema) : bool :=
+         match l, l' with
+         | [], [] => true
+         | x :: l, y :: l' => sch_eqb x y && go l l'
+         | _, _ => false
+         end) l l'
+  | SRecord n al fs, SRecord n' al' fs' =>
+      bytes_eqb n n' && sl_eqb al al' &&
+      (fix go (l l' : list field) : bool :=
+         match l, l' with
+         | [], [] => true
+         | x :: l, y :: l' =>
+             bytes_eqb (fname x) (fname y) && sch_eqb (ftype x) (ftype y) &&
+             o_eqb py_eqb (fdefault x) (fdefault y) && sl_eqb (faliases x) (faliases y) && go l l'
+         | _, _ => false
+         end) fs fs'
+  | SRef n, SRef n' => bytes_eqb n n'
+  | SAnnot lt x, SAnnot lt' y => bytes_eqb lt lt' && sch_eqb x y
+  | _, _ => false
+  end.
+Definition pair_eqb (p q : schema * schema) : bool := sch_eqb (fst p) (fst q) && sch_eqb (snd p) (snd q).
+Definition memp (p : schema * schema) (S : list (schema * schema)) : bool := existsb (pair_eqb p) S.
+
+(* the pairs [agree_step] hands to [rec] *)
+Definition on_reader_l (we re : env) (w r : schema) (on_branch on_plain : schema -> list (schema * schema))
+  : list (schema * schema) :=
+  match deref1 re r with
+  | SUnion rbs => match spec_idx we re w rbs with
+                  | Some j => match nth_error rbs j with Some b => on_branch b | None => [] end
+                  | None => []
+                  end
+  | _ => if smatch we re true w r then on_plain (deref1 re r) else []
+  end.
+Definition succs (we re : env) (w r : schema) : list (schema * schema) :=
+  let node (w' b : schema) : list (schema * schema) :=
+    match w', b with
+    | SArray wi, SArray ri => [(wi, ri)]
+    | SMap wv, SMap rv => [(wv, rv)]
+    | SRecord _ _ wfs, SRecord _ _ rfs =>
+        flat_map (fun wf => match reader_field rfs (fname wf) with
+                            | Some rf => [(ftype wf, ftype rf)]
+                            | None => [] end) wfs
+    | _, _ => []
+    end in
+  match w with
+  | SRef nm =>
+      match lookup we nm with
+      | None => []
+      | Some wd => on_reader_l we re w r (fun b => [(wd, deref1 re b)]) (fun rd => [(wd, rd)])
+      end
+  | SUnion wbs => flat_map (fun wb => on_reader_l we re wb r (fun b => [(wb, b)]) (fun rd => [(wb, rd)])) wbs
+  | _ => on_reader_l we re w r (fun b => node w (deref1 re b)) (fun rd => node w rd)
+  end.
+
+(* the pairs reachable from [todo] (work list; [fuel] bounds the number of steps) *)
+Fixpoint reach (fuel : nat) (we re : env) (todo seen : list (schema * schema)) {struct fuel} : list (schema * schema) :=
+  match fuel with
+  | O => seen
+  | S fuel =>
+    match todo with
+    | [] => seen
+    | p :: todo => if memp p seen then reach fuel we re todo seen
+                   else reach fuel we re (succs we re (fst p) (snd p) ++ todo) (p :: seen)
+    end
+  end.
+Definition closedb (we re : env) (S : list (schema * schema)) : bool :=
+  forallb (fun p => agree_step (fun a b => memp (a, b) S) we re (fst p) (snd p)) S.
+Definition REACH : nat := 3000.
+Definition agree_all (we re : env) (w r : schema) : bool :=
+  let S := reach REACH we re [(w, r)] [] in memp (w, r) S && closedb we re S.
 
 (** text protocol *)
 Local Open Scope string_scope.
@@ -1136,7 +1242,7 @@ Definition show_rval (x : rres pyval) : string :=
   end.
 
 Definition RFUEL : nat := 400.
-Definition ZDEPTH : nat := 16.   (* depth to which the zone with references is evaluated for the statistics *)
+Definition ZDEPTH : nat := 16.   (* depth to which the zone with references is evaluated when no closed set is found *)
 
 (* implementation model on the bytes ; specification on the value decoded under the writer schema *)
 (* the height at which a value is typed (typedn): only for the statistics of the zone with references *)
@@ -1168,14 +1274,16 @@ Definition run_resolve (o : ropts) (we re : env) (w : schema) (R : option schema
   | Err => "EO"
   | OutOfFuel => "FUEL"
   end ++ ";" ++ (if inline w && inline r && agree we re w r then "Z1"
-                 else if env_scoped we && env_scoped re && scoped we w && scoped re r && agreen ZDEPTH we re w r then
-                   match d with
-                   | Ok (a, _) => if (theight 100 we w a <=? ZDEPTH)%nat then "Z2" else "Z0H"
-                   | _ => "Z2"
-                   end
+                 else if env_scoped we && env_scoped re && scoped we w && scoped re r then
+                   if agree_all we re w r then "Z2"          (* every depth *)
+                   else if agreen ZDEPTH we re w r then
+                     match d with
+                     | Ok (a, _) => if (theight 100 we w a <=? ZDEPTH)%nat then "Z2D" else "Z0H"
+                     | _ => "Z2D"
+                     end
+                   else "Z0A"
                  else "Z0" ++ (if env_scoped we then "" else "E") ++ (if env_scoped re then "" else "e")
-                           ++ (if scoped we w then "" else "W") ++ (if scoped re r then "" else "R")
-                           ++ (if agreen ZDEPTH we re w r then "" else "A")).
+                           ++ (if scoped we w then "" else "W") ++ (if scoped re r then "" else "R")).
 
 (* the same on the bytes of an explicit layout of the value (any block partition), followed by [suffix] *)
 Definition run_resolve_layout (o : ropts) (we re : env) (w : schema) (R : option schema) (r : schema) (l : lval) (suffix : bytes)
